@@ -163,8 +163,12 @@ type machine struct {
 	avoid     map[string]string // shape -> listed signature
 	neg       bool
 	roiSet    map[[3]int32]bool
-	pending   bool // an annotation reload was requested and may still run
-	pendingSz bool // a labelsz reload was requested and may still run
+	pending   bool  // an annotation reload was requested and may still run
+	pendingSz bool  // a labelsz reload was requested and may still run
+	pollPanic error // a recovered panic seen while polling
+	// qual qualifies the op tag per group of views ("denorm": tag and label views, "labelsz"): a reload option only names
+	// the views it can influence, so that one root cause has one signature
+	qual map[string]string
 	// non-trivial rule
 	ntLabelOp, ntPartner bool
 	applied              map[string]int
@@ -555,6 +559,9 @@ func (m *machine) waitReload(n *vnode) {
 	deadline := time.Now().Add(60 * time.Second)
 	for ok < 3 && time.Now().Before(deadline) {
 		r := drive.Post(m.an(n, "elements?kafkalog=off"), []byte("[]"))
+		if r.IsPanic() && m.pollPanic == nil {
+			m.pollPanic = stats.Violf("C13/POST-elements/panic", "empty POST elements while waiting for reload: %s", r)
+		}
 		if r.OK() {
 			ok++
 		} else {
@@ -572,6 +579,9 @@ func (m *machine) waitLabelsz(n *vnode) {
 	deadline := time.Now().Add(60 * time.Second)
 	for ok < 3 && time.Now().Before(deadline) {
 		r := drive.Get(m.sz(n, "count/1/PostSyn"))
+		if r.IsPanic() && m.pollPanic == nil {
+			m.pollPanic = stats.Violf("C13/labelsz-count/panic", "while waiting for the labelsz reload: %s", r)
+		}
 		if r.OK() {
 			ok++
 		} else {
@@ -587,6 +597,7 @@ func (m *machine) waitLabelsz(n *vnode) {
 func (m *machine) apply(i int, o aop) (tag string, err error) {
 	n := m.cur()
 	what := fmt.Sprintf("op %d %s at node %d", i, o.Kind, len(m.nodes)-1)
+	m.qual = map[string]string{}
 	switch o.Kind {
 	case "newversion":
 		if len(m.nodes) > maxNewVersions {
@@ -842,11 +853,11 @@ func (m *machine) apply(i int, o aop) (tag string, err error) {
 		m.pending = true
 		m.cls["reload-only"] = true
 		m.applied["reload"]++
-		switch {
-		case lowmem:
-			return "reload/lowmem", nil
-		case check:
-			return "reload/check", nil
+		if lowmem {
+			m.qual["labelsz"] = "/lowmem"
+		}
+		if check {
+			m.qual["denorm"] = "/check"
 		}
 		return "reload", nil
 
@@ -982,14 +993,12 @@ func (m *machine) applyBlocks(n *vnode, o aop, what string) (string, error) {
 	if lowmem {
 		m.cls["reload/lowmem"] = true
 	}
-	switch {
-	case nonSyn:
-		tag += "/non-synaptic-kinds" // Note / Unknown elements sit on labelled voxels while the labelsz is rebuilt
+	if nonSyn {
+		m.qual["labelsz"] = "/non-synaptic-kinds" // Note / Unknown elements sit on labelled voxels while the labelsz is rebuilt
 		m.cls["reload/non-synaptic-kinds"] = true
-	case check:
-		tag += "/check"
-	case lowmem:
-		tag += "/lowmem"
+	}
+	if check {
+		m.qual["denorm"] = "/check"
 	}
 	m.applied["blocks"]++
 	return tag, nil
@@ -1026,16 +1035,6 @@ func uniq(v []uint64) []uint64 {
 		}
 	}
 	return out
-}
-
-// mappedUnderElements reports whether some element sits on a voxel whose stored supervoxel id differs from its body.
-func (m *machine) mappedUnderElements(n *vnode, extra []uint64) bool {
-	for p := range n.es.E {
-		if sv := m.svAt(n, p); sv != 0 && n.st.Body(sv) != sv {
-			return true
-		}
-	}
-	return false
 }
 
 func (m *machine) applyLabelOp(n *vnode, o aop, what string) (string, error) {
@@ -1353,13 +1352,28 @@ func decodeLabelSizes(b []byte) ([]lsz, error) {
 // after names the op that was applied last; it is part of the signatures.
 func (m *machine) check(ni int, after string) error {
 	n := m.nodes[ni]
-	sig := func(view, cond string) string { return "C13/" + view + "/" + cond + "/after-" + after + m.negSuffix() }
+	sig := func(view, cond string) string {
+		q := ""
+		switch {
+		case view == "tag" || view == "label":
+			q = m.qual["denorm"]
+		case strings.HasPrefix(view, "labelsz"):
+			q = m.qual["labelsz"]
+		}
+		if strings.HasPrefix(after, "final-sweep") {
+			q = ""
+		}
+		return "C13/" + view + "/" + cond + "/after-" + after + q + m.negSuffix()
+	}
 	ctx := fmt.Sprintf("after %s, reading node %d", after, ni)
 	if m.pending {
 		m.waitReload(n)
 	}
 	if m.pendingSz {
 		m.waitLabelsz(n)
+	}
+	if m.pollPanic != nil {
+		return m.pollPanic
 	}
 	get := func(url, endpoint string) (drive.Resp, error) {
 		r := drive.Get(url)
@@ -1759,9 +1773,7 @@ func checkC13(c c13Case) (outcome, error) {
 		}
 		drive.Settle(m.root)
 		ni := len(m.nodes) - 1
-		after := fmt.Sprintf("%s", tag)
-		what := fmt.Sprintf("op %d", i)
-		_ = what
+		after := tag
 		if err := drive.WithDeepRetry(m.root, func() error { return m.check(ni, after) }); err != nil {
 			if v, ok := err.(*stats.Violation); ok {
 				v.Msg = fmt.Sprintf("op %d: %s", i, v.Msg)
